@@ -291,10 +291,9 @@ func (t *taint) boundKinds(cond ssa.Value, truth bool, a atom) (hi, lo bool) {
 			op = token.EQL
 		}
 	}
-	_ = x
 	switch op {
 	case token.LSS, token.LEQ, token.EQL:
-		hi = acceptableBound(y)
+		hi = acceptableBound(y) && !t.mayWrapUp(x, a, 0)
 		if op == token.EQL {
 			lo = hi
 		}
@@ -304,6 +303,37 @@ func (t *taint) boundKinds(cond ssa.Value, truth bool, a atom) (hi, lo bool) {
 		}
 	}
 	return
+}
+
+// mayWrapUp: on the way from atom a to expression e something is added,
+// multiplied or shifted in a type of at most 32 bits: for large values of the
+// atom the expression wraps around to a small number, so `e <= bound` says
+// nothing about the atom.
+func (t *taint) mayWrapUp(e ssa.Value, a atom, depth int) bool {
+	if depth > 10 || !t.mentions(e, a, 0) {
+		return false
+	}
+	switch x := e.(type) {
+	case *ssa.Convert:
+		return t.mayWrapUp(x.X, a, depth+1)
+	case *ssa.ChangeType:
+		return t.mayWrapUp(x.X, a, depth+1)
+	case *ssa.BinOp:
+		switch x.Op {
+		case token.ADD, token.MUL, token.SHL:
+			if intWidth(x.Type()) <= 32 {
+				return true
+			}
+		}
+		return t.mayWrapUp(x.X, a, depth+1) || t.mayWrapUp(x.Y, a, depth+1)
+	case *ssa.Phi:
+		for _, ed := range x.Edges {
+			if t.mayWrapUp(ed, a, depth+1) {
+				return true
+			}
+		}
+	}
+	return false
 }
 
 // acceptableBound: a constant, a declared snap length, the remaining block
@@ -451,6 +481,8 @@ func checkC15(c *core.Ctx) {
 
 	t := newTaint(p, rd)
 	c.Counts["file_derived_fields"] = len(t.fields)
+	r7 := c.Rule("R15.7", "T", "a slice expression whose high bound comes from the file stays within the capacity of the array or buffer it slices")
+	capacityDiscipline(c, r7, t, rd)
 
 	// ---- R15.1 / R15.4
 	nMake := 0
